@@ -196,6 +196,226 @@ theorem call_contract_failed {s : St} (hw : WF s) (nargs : Nat) (hna : nargs + 1
     Refines s (pcallRecover s nargs atFailure) (StackSpec.callFailed (abs s) nargs) :=
   pcallRecover_contract hw nargs hna atFailure hcap hkeep htop
 
+/-- **call_contract** (failed protected call, every exit path of `PCall`'s deferred function): with no handler, with a
+    handler that returned, and with a handler that itself failed (Lua error, Go value, overflow) — from whatever frame
+    was current when the path was taken (`atExit.base`) — the function that made the protected call gets its own list
+    back: same base, function / arguments / partial results gone, everything below the call window and the caller
+    prefix untouched. -/
+theorem call_contract_failed_every_path {s : St} (hw : WF s) (nargs : Nat) (hna : nargs + 1 ≤ (abs s).length)
+    (path : RecoverPath) (atExit : St) (hcap : atExit.reg.top ≤ atExit.reg.array.length)
+    (hkeep : ∀ j, j < s.reg.top - nargs - 1 → atExit.reg.array[j]? = s.reg.array[j]?)
+    (htop : s.reg.top - nargs - 1 ≤ atExit.reg.top) :
+    Refines s (pcallDeferred s nargs path atExit) (StackSpec.callFailed (abs s) nargs) := by
+  rw [pcallDeferred_eq_recover]
+  exact pcallRecover_contract hw nargs hna atExit.reg hcap hkeep htop
+
+/-- what the list contract says about the caller's indices after ANY call (Spec level): the values below the call
+    window are read through the same positive indices as before, `top = before − nargs − 1 + results left`, and the
+    results sit directly above, in order. -/
+theorem call_view (l : List OVal) (nargs : Nat) (nret : Int) (results : List OVal) (hna : nargs + 1 ≤ l.length) :
+    StackSpec.getTop (StackSpec.call l nargs nret results)
+        = l.length - nargs - 1 + (StackSpec.adjust results nret).length ∧
+    (∀ i : Nat, 1 ≤ i → i ≤ l.length - nargs - 1 →
+        StackSpec.get (StackSpec.call l nargs nret results) i = StackSpec.get l i) ∧
+    (∀ k : Nat, k < (StackSpec.adjust results nret).length →
+        StackSpec.get (StackSpec.call l nargs nret results) ((l.length - nargs - 1 + k + 1 : Nat) : Int)
+          = (StackSpec.adjust results nret).getD k none) := by
+  have hlen : (StackSpec.call l nargs nret results).length
+      = l.length - nargs - 1 + (StackSpec.adjust results nret).length := by
+    unfold StackSpec.call
+    rw [List.length_append, List.length_take]
+    omega
+  refine ⟨hlen, ?_, ?_⟩
+  · intro i h1 h2
+    have hr1 : StackSpec.resolve (StackSpec.call l nargs nret results) (i : Int) = some (i - 1) := by
+      unfold StackSpec.resolve
+      rw [if_pos (by rw [hlen]; omega)]
+      congr 1
+      omega
+    have hr2 : StackSpec.resolve l (i : Int) = some (i - 1) := by
+      unfold StackSpec.resolve
+      rw [if_pos (by omega)]
+      congr 1
+      omega
+    unfold StackSpec.get
+    rw [hr1, hr2]
+    show (StackSpec.call l nargs nret results).getD (i - 1) none = l.getD (i - 1) none
+    unfold StackSpec.call
+    rw [List.getD_eq_getElem?_getD, List.getD_eq_getElem?_getD,
+      List.getElem?_append_left (by rw [List.length_take]; omega), List.getElem?_take]
+    rw [if_pos (by omega)]
+  · intro k hk
+    have hr : StackSpec.resolve (StackSpec.call l nargs nret results) ((l.length - nargs - 1 + k + 1 : Nat) : Int)
+        = some (l.length - nargs - 1 + k) := by
+      unfold StackSpec.resolve
+      rw [if_pos (by rw [hlen]; omega)]
+      congr 1
+      omega
+    unfold StackSpec.get
+    rw [hr]
+    show (StackSpec.call l nargs nret results).getD (l.length - nargs - 1 + k) none = _
+    unfold StackSpec.call
+    rw [List.getD_eq_getElem?_getD, List.getD_eq_getElem?_getD,
+      List.getElem?_append_right (by rw [List.length_take]; omega)]
+    congr 2
+    rw [List.length_take]
+    omega
+
+/-- the same for a failed protected call: `top = before − nargs − 1`, the values below the call window under the same
+    indices, nothing above. -/
+theorem failed_call_view (l : List OVal) (nargs : Nat) (hna : nargs + 1 ≤ l.length) :
+    StackSpec.getTop (StackSpec.callFailed l nargs) = l.length - nargs - 1 ∧
+    (∀ i : Nat, 1 ≤ i → i ≤ l.length - nargs - 1 →
+        StackSpec.get (StackSpec.callFailed l nargs) i = StackSpec.get l i) ∧
+    (∀ i : Nat, l.length - nargs - 1 < i → StackSpec.get (StackSpec.callFailed l nargs) i = none) := by
+  have h0 : StackSpec.callFailed l nargs = StackSpec.call l nargs 0 [] := by
+    unfold StackSpec.callFailed StackSpec.call StackSpec.adjust
+    simp
+  have hadj : (StackSpec.adjust [] 0).length = 0 := by decide
+  obtain ⟨h1, h2, _⟩ := call_view l nargs 0 [] hna
+  rw [hadj] at h1
+  refine ⟨by rw [h0]; exact h1, fun i a b => by rw [h0]; exact h2 i a b, ?_⟩
+  intro i hi
+  have hl : (StackSpec.callFailed l nargs).length = l.length - nargs - 1 := by rw [h0]; exact h1
+  unfold StackSpec.get StackSpec.resolve
+  rw [if_neg (by rw [hl]; omega), if_neg (by omega)]
+
+/-! pseudo-indices: the cells a running host function sees. -/
+def cellsOf (p : PSt) (f : FnCells) : StackSpec.Cells :=
+  { registry := p.registry, environ := f.env, globals := p.globals, upvalues := f.ups }
+
+/-- **pseudo_get**: inside a host function `Get` at a pseudo-index reads the cell the manual names (registry,
+    the function's environment, globals, its n-th upvalue; nil beyond its upvalues), for every index. -/
+theorem pseudo_get {p : PSt} {f : FnCells} (hf : p.frame = some f) (idx : Int) (which : StackSpec.Pseudo)
+    (hi : StackSpec.pseudoOf idx = some which) :
+    getPseudo p idx = .ok (StackSpec.pseudoGet (cellsOf p f) which) := by
+  unfold StackSpec.pseudoOf at hi
+  unfold getPseudo Generated.RegistryIndex Generated.EnvironIndex Generated.GlobalsIndex
+  rw [hf]
+  by_cases h0 : idx = -10000
+  · rw [if_pos h0] at hi; cases hi; rw [if_pos h0]; rfl
+  · rw [if_neg h0] at hi ⊢
+    by_cases h1 : idx = -10001
+    · rw [if_pos h1] at hi; cases hi; rw [if_pos h1]; rfl
+    · rw [if_neg h1] at hi ⊢
+      by_cases h2 : idx = -10002
+      · rw [if_pos h2] at hi; cases hi; rw [if_pos h2]; rfl
+      · rw [if_neg h2] at hi ⊢
+        by_cases h3 : idx < -10002
+        · rw [if_pos h3] at hi; cases hi
+          have e : StackSpec.pseudoGet (cellsOf p f) (.upvalue (-10002 - idx).toNat)
+              = if 1 ≤ (-10002 - idx).toNat ∧ (-10002 - idx).toNat ≤ f.ups.length
+                then f.ups.getD ((-10002 - idx).toNat - 1) none else none := rfl
+          rw [e]
+          show (if -10002 - idx - 1 < (f.ups.length : Int) then _ else _) = _
+          by_cases h4 : -10002 - idx - 1 < (f.ups.length : Int)
+          · rw [if_pos h4, if_neg (by omega), if_pos (by omega)]
+            congr 2
+            omega
+          · rw [if_neg h4, if_neg (by omega)]
+        · rw [if_neg h3] at hi; cases hi
+
+/-- **pseudo_replace**: inside a host function `Replace` at a pseudo-index stores into exactly that cell (a table is
+    required for registry / environment / globals: anything else is a Lua error, never a Go panic; a store beyond the
+    function's upvalues has no effect).  The value stack is not an argument of this branch: the list of the
+    activation and everything that belongs to callers is untouched by construction. -/
+theorem pseudo_replace {p : PSt} {f : FnCells} (hf : p.frame = some f) (idx : Int) (which : StackSpec.Pseudo)
+    (hi : StackSpec.pseudoOf idx = some which) (v : OVal) (isTable : Bool) :
+    match StackSpec.pseudoSet (cellsOf p f) which v isTable with
+    | some c' => ∃ p' f', replacePseudo p idx v isTable = .ok p' ∧ p'.frame = some f' ∧ cellsOf p' f' = c' ∧
+                          p'.threadEnv = p.threadEnv
+    | none => ∃ m, replacePseudo p idx v isTable = .error (.luaError m) := by
+  unfold StackSpec.pseudoOf at hi
+  unfold replacePseudo Generated.RegistryIndex Generated.EnvironIndex Generated.GlobalsIndex
+  rw [hf]
+  by_cases h0 : idx = -10000
+  · rw [if_pos h0] at hi; cases hi; rw [if_pos h0]
+    cases isTable
+    · exact ⟨_, rfl⟩
+    · exact ⟨_, f, rfl, rfl, rfl, rfl⟩
+  · rw [if_neg h0] at hi ⊢
+    by_cases h1 : idx = -10001
+    · rw [if_pos h1] at hi; cases hi; rw [if_pos h1]
+      cases isTable
+      · exact ⟨_, rfl⟩
+      · exact ⟨_, _, rfl, rfl, rfl, rfl⟩
+    · rw [if_neg h1] at hi ⊢
+      by_cases h2 : idx = -10002
+      · rw [if_pos h2] at hi; cases hi; rw [if_pos h2]
+        cases isTable
+        · exact ⟨_, rfl⟩
+        · exact ⟨_, f, rfl, rfl, rfl, rfl⟩
+      · rw [if_neg h2] at hi ⊢
+        by_cases h3 : idx < -10002
+        · rw [if_pos h3] at hi; cases hi
+          have e : StackSpec.pseudoSet (cellsOf p f) (.upvalue (-10002 - idx).toNat) v isTable
+              = if 1 ≤ (-10002 - idx).toNat ∧ (-10002 - idx).toNat ≤ f.ups.length
+                then some { cellsOf p f with upvalues := f.ups.set ((-10002 - idx).toNat - 1) v }
+                else some (cellsOf p f) := rfl
+          rw [e]
+          by_cases h4 : -10002 - idx - 1 < (f.ups.length : Int)
+          · rw [if_pos (by omega)]
+            show ∃ p' f', (if -10002 - idx - 1 < (f.ups.length : Int) then _ else _) = Except.ok p' ∧ _
+            rw [if_pos h4, if_neg (by omega)]
+            refine ⟨_, _, rfl, rfl, ?_, rfl⟩
+            have : (-10002 - idx - 1).toNat = (-10002 - idx).toNat - 1 := by omega
+            rw [this]
+            rfl
+          · rw [if_neg (by omega)]
+            show ∃ p' f', (if -10002 - idx - 1 < (f.ups.length : Int) then _ else _) = Except.ok p' ∧ _
+            rw [if_neg h4]
+            exact ⟨_, f, rfl, hf, rfl, rfl⟩
+        · rw [if_neg h3] at hi; cases hi
+
+/-- at top level (no running function): registry and globals as above; the environment read is the thread's, a
+    store into it is the Lua error "no calling environment". -/
+theorem pseudo_toplevel {p : PSt} (hf : p.frame = none) (v : OVal) (isTable : Bool) :
+    getPseudo p Generated.RegistryIndex = .ok p.registry ∧ getPseudo p Generated.GlobalsIndex = .ok p.globals ∧
+    getPseudo p Generated.EnvironIndex = .ok p.threadEnv ∧
+    replacePseudo p Generated.EnvironIndex v isTable = .error (.luaError "no calling environment") := by
+  unfold getPseudo replacePseudo
+  rw [hf]
+  exact ⟨rfl, rfl, rfl, rfl⟩
+
+/-- full strength would be: no pseudo-index operation ends in a Go panic.  False at top level: an upvalue index
+    dereferences the nil `currentFrame` (in C Lua the same call is undefined behaviour: there is no running C function
+    whose upvalues could be meant; outside the property's index domain, the generator never does it). -/
+def pseudo_never_panics_full : Prop :=
+  ∀ (p : PSt) (idx : Int), idx ≤ Generated.RegistryIndex → ∀ site, getPseudo p idx ≠ .error (.goPanic site)
+
+theorem pseudo_never_panics_full_fails : ¬ pseudo_never_panics_full := by
+  intro h
+  exact h { registry := none, globals := none, threadEnv := none, frame := none } (-10003) (by decide) _ rfl
+
+/-- the partial statement: with a running function, never a Go panic (reads), for every pseudo-index. -/
+theorem pseudo_never_panics_partial {p : PSt} {f : FnCells} (hf : p.frame = some f) (idx : Int)
+    (hidx : idx ≤ Generated.RegistryIndex) : ∃ v, getPseudo p idx = .ok v := by
+  have : ∃ which, StackSpec.pseudoOf idx = some which := by
+    unfold StackSpec.pseudoOf
+    unfold Generated.RegistryIndex at hidx
+    by_cases h0 : idx = -10000
+    · exact ⟨_, by rw [if_pos h0]⟩
+    · by_cases h1 : idx = -10001
+      · exact ⟨_, by rw [if_neg h0, if_pos h1]⟩
+      · by_cases h2 : idx = -10002
+        · exact ⟨_, by rw [if_neg h0, if_neg h1, if_pos h2]⟩
+        · exact ⟨_, by rw [if_neg h0, if_neg h1, if_neg h2, if_pos (by omega)]⟩
+  obtain ⟨w, hw⟩ := this
+  exact ⟨_, pseudo_get hf idx w hw⟩
+
+/-- non-vacuity: a host function with two upvalues; index -10004 is its second upvalue, -10005 is beyond. -/
+def examplePSt : PSt :=
+  { registry := some (.ref 1), globals := some (.ref 2), threadEnv := some (.ref 2),
+    frame := some { env := some (.ref 3), ups := [some (.int 7101), some (.str "7570")] } }
+
+example :
+    let p := examplePSt
+    getPseudo p (-10004) = .ok (some (.str "7570")) ∧ getPseudo p (-10005) = .ok none ∧
+    (replacePseudo p (-10003) none false).toOption.map (fun q => q.frame.map (·.ups))
+      = some (some [none, some (.str "7570")]) ∧
+    replacePseudo p (-10001) (some (.int 1)) false = .error (.luaError "environment must be a table") := by
+  exact ⟨rfl, rfl, rfl, rfl⟩
+
 /-- **api_delegates** (regenerated from the text of /repo/state.go on every run): each object-level call is
     a single delegation to the helper the VM itself uses, so the C04/C09 theorems about those helpers apply
     to the API verbatim. -/
@@ -241,5 +461,15 @@ example : (run exampleSt exampleOps).toOption.map (fun s => (s.reg.array.length,
 
 /-- call contract, non-vacuity: a host function with list [1, nil, "61"] returning 2 to a caller that wants 3. -/
 example : StackSpec.adjust (StackSpec.topMost (abs exampleSt) 2) 3 = [none, some (.str "61"), none] := by decide
+
+/-- non-vacuity of the failed-call statements: the activation of `exampleSt` calls with 1 argument; the callee frame
+    (base 6) pushed two values, the failing handler's frame (base 9) three more, before the inner recover ran. -/
+example :
+    (pcallDeferred exampleSt 1 .handlerFailed
+        { reg := { exampleSt.reg with array := exampleSt.reg.array ++ List.replicate 4 (.val (some (.int 6001))), top := 12 },
+          base := 9 }).toOption.map (fun s => (s.base, s.reg.top, abs s))
+      = some (3, 4, [some (.int 1)]) ∧
+    StackSpec.callFailed (abs exampleSt) 1 = [some (.int 1)] := by
+  decide
 
 end GLua.Props.C10
